@@ -37,7 +37,7 @@ Section WithV.
     do fs <- mapM (find_mfile ms) (o_order (go_nifti go));
     embed veqb vnone fs (ashape (go_data go)) (h_slice_dim h) (go_aff go) filt.
 
-  (** [to_nifti(code, embed_meta)]: stack state (mutated in place: re-sort, affine edit, reversal + dirty flag),
+  (** [to_nifti(code, embed_meta)]: stack state (mutated in place: re-sort, reversal + dirty flag),
       result = voxel data + affine, header fields, the embedded extension when requested *)
   Definition conv_full (gs : list gfile) (ms : list (mfile V)) (st : state) (code : str) (embed_flag : bool)
              (filt : key -> bool) : state * res (geom_out * hdr_out * option (ext V)) :=
